@@ -8,10 +8,10 @@ namespace Petl.Snapshot
 open Petl.Gen
 
 def expectedC09 : List (String × String) := [
-  ("file:comparison.py", "17971f67ee946013"),
+  ("file:comparison.py", "c46d05a1308c92ce"),
   ("file:config.py", "142bde514c82c29d"),
   ("file:transform/basics.py", "ef1ded632cafe787"),
-  ("file:transform/dedup.py", "00c85272c501507a"),
+  ("file:transform/dedup.py", "bd5f47cbc6d0c73d"),
   ("file:transform/reductions.py", "edf72039afd74a8e"),
   ("file:transform/sorts.py", "137f7e8a70e043fe"),
   ("file:util/base.py", "771a68108eeb730d"),
